@@ -141,7 +141,15 @@ def gen_norm_building(rng):
         b.add("CONSUMO", id=31, service="CAL", carrier="GASNATURAL", values=gen.vec(rng, n))
         b.add("AUX", id=31, values=gen.vec(rng, n, hi=64 * 20, pzero=0.0))
         b.tags.add("aux_only_electricity")
-    elif r < 0.45:
+    elif r < 0.6:
+        # systems whose declared production exceeds the use at some steps and falls short at others
+        for i in rng.sample([51, 52, 53], rng.randint(1, 2)):
+            cr = rng.choice(["EAMBIENTE", "TERMOSOLAR"])
+            u = gen.vec(rng, max(n, 1), pzero=0.1)
+            b.add("CONSUMO", id=i, service=rng.choice(["ACS", "CAL"]), carrier=cr, values=u)
+            b.add("PRODUCCION", id=i, source=cr, values=[x * rng.choice([0, Fraction(1, 2), 1, 2, 3]) + rng.choice([0, 0, 5]) for x in u])
+        b.tags.add("onsite_mixed_per_step")
+    elif r < 0.7:
         # two systems with declared ambient production, one surplus, one short
         for i, f in ((41, Fraction(3, 2)), (42, Fraction(1, 2))):
             u = gen.vec(rng, n, pzero=0.1)
